@@ -10,6 +10,8 @@
   stream of admissible choices (i.e. every seed and every run length).
 -/
 import LMV.Lemmas.SamplerInit
+import LMV.Lemmas.SamplerCount
+import LMV.Lemmas.SamplerReport
 
 namespace LMV
 namespace C16
@@ -283,6 +285,172 @@ theorem run_prefix : ∀ (cs ds : List Choice) (s : State K),
         obtain ⟨s', it⟩ := p
         simp only []
         exact (List.prefix_cons_inj _).mpr (ih ds s')
+
+/-! ### the property in the words of the public API, for whole programs -/
+
+/-- Every state of every run reports an alignment (`active_sequences`, `active_starts`) from which
+    its count matrix and its background counts are recomputed exactly, with every window inside
+    its sequence. -/
+theorem reported_run (hwf : D.WF K) (cs : List Choice) (s : State K) (hinv : Inv D P.w s)
+    (hadm : AdmRun D P s cs) : ∀ x, x ∈ (run D P s cs).1 → Reported D P.w x.1 :=
+  fun x hx => reported_of_inv (inv_run hwf cs s hinv hadm x hx)
+
+/-- The whole sampler, from `SamplerData::new` on: for every dataset over the alphabet (striped in
+    `C > 0` columns), all parameters, all admissible draws in `_new` and all admissible choice
+    streams, the state after `_new` and after every step equals the recomputation from the
+    alignment it reports, and every iteration reports the alignment without its held-out sequence. -/
+theorem sampler_correct (C : Nat) (seqs : Array (Array Nat)) (wraps : Array Nat) (P : Params)
+    (ic : InitChoice) (cs : List Choice) (hC : 0 < C)
+    (hsym : ∀ i, i < seqs.size → ∀ k, k < (seqs.getD i #[]).size → (seqs.getD i #[]).getD k 0 < K) :
+    ∃ D, mkData K C seqs wraps = .ok D ∧ D.seqs = seqs ∧
+      (InitAdm D P ic → ∀ s0 : State K, init D P ic = .ok s0 → AdmRun D P s0 cs →
+        Reported D P.w s0 ∧ TraceOK D P s0 (run D P s0 cs).1 ∧
+        ∀ x, x ∈ (run D P s0 cs).1 → Reported D P.w x.1) := by
+  obtain ⟨D, h1, h2, _, hwf⟩ := mkData_wf K C seqs wraps hC hsym
+  refine ⟨D, h1, h2, ?_⟩
+  intro hadm s0 hs0 hrun
+  have hinv := inv_init hwf hadm hs0
+  exact ⟨reported_of_inv hinv, trace_ok hwf cs s0 hinv hrun, reported_run hwf cs s0 hinv hrun⟩
+
+/-- Oops mode with at least two sequences, all longer than the width: the run never panics.
+    (Zoops mode: the same from any state with two active sequences, `run_never_panics`.) -/
+theorem oops_never_panics {ic : InitChoice} {s0 : State K} (hwf : D.WF K) (hL : Longer D P.w)
+    (hoops : P.zoops = false) (hn : 2 ≤ D.n) (hadm : InitAdm D P ic) (hs0 : init D P ic = .ok s0)
+    (cs : List Choice) (hrun : AdmRun D P s0 cs) : ∀ e, (run D P s0 cs).2 ≠ .panic e := by
+  have hinv := inv_init hwf hadm hs0
+  rcases init_spec (K := K) hwf hadm with ⟨_, he⟩ | ⟨_, s', hs', _, _, _, _, hall, _⟩
+  · rw [he] at hs0; cases hs0
+  · rw [hs'] at hs0; cases hs0
+    exact run_never_panics hwf hL cs s0 hinv
+      ⟨0, 1, by omega, by omega, by omega, hall hoops 0 (by omega), hall hoops 1 (by omega)⟩ hrun
+
+/-- Zoops mode with at least two (distinct) seeds. -/
+theorem zoops_never_panics {ic : InitChoice} {s0 : State K} (hwf : D.WF K) (hL : Longer D P.w)
+    (hz : P.zoops = true) (hseeds : 2 ≤ min P.initial D.n) (hadm : InitAdm D P ic)
+    (hs0 : init D P ic = .ok s0) (cs : List Choice) (hrun : AdmRun D P s0 cs) :
+    ∀ e, (run D P s0 cs).2 ≠ .panic e := by
+  have hinv := inv_init hwf hadm hs0
+  obtain ⟨hlt, hnd, hlen⟩ := hadm.2.2 hz
+  rcases init_spec (K := K) hwf hadm with ⟨_, he⟩ | ⟨_, s', hs', _, _, _, _, _, hact⟩
+  · rw [he] at hs0; cases hs0
+  · rw [hs'] at hs0; cases hs0
+    -- two distinct seeds
+    match hsd : ic.seeds, hlen, hnd, hlt, hact hz with
+    | [], hlen, _, _, _ => simp at hlen; omega
+    | [_], hlen, _, _, _ => simp at hlen; omega
+    | a :: b :: rest, _, hnd, hlt, hact =>
+      have hab : a ≠ b := by
+        intro e; rw [e] at hnd; simp at hnd
+      exact run_never_panics hwf hL cs s0 hinv
+        ⟨a, b, hlt a (by simp), hlt b (by simp), hab, hact a (by simp), hact b (by simp)⟩ hrun
+
+/-! ### non-vacuity: the hypotheses are satisfiable and the conclusions are about real runs -/
+
+section Example
+
+/-- a decidable check of `AdmRun` -/
+def admRunB (D : Data) (P : Params) : State K → List Choice → Bool
+  | _, [] => true
+  | s, c :: cs =>
+    decide (Adm D P s c) &&
+      (match next D P s c with
+       | .ok (some (s', _)) => admRunB D P s' cs
+       | _ => true)
+
+theorem admRun_of_admRunB : ∀ (cs : List Choice) (s : State K), admRunB D P s cs = true → AdmRun D P s cs := by
+  intro cs
+  induction cs with
+  | nil => intro _ _; trivial
+  | cons c cs ih =>
+    intro s h
+    unfold admRunB at h
+    rw [Bool.and_eq_true] at h
+    refine ⟨of_decide_eq_true h.1, ?_⟩
+    intro s' it hn
+    have h2 := h.2
+    rw [hn] at h2
+    exact ih s' h2
+
+/-- three DNA sequences (`A C T G N` = `0 1 2 3 4`), all longer than the width 3 -/
+def exData : Data :=
+  ⟨#[#[0,1,2,3,0,1], #[1,1,2,0,4], #[3,2,1,0,0,2,1]],
+   #[#[2,2,1,1,0], #[1,2,1,0,1], #[2,2,2,1,0]], #[3,3,3]⟩
+def exOops : Params := { w := 3, zoops := false, initial := 0, inertia := 0, patience := 0 }
+def exZoops : Params := { w := 3, zoops := true, initial := 2, inertia := 1, patience := 3 }
+def exIc : InitChoice := { starts := #[1, 0, 4], seeds := [] }
+def exIcZ : InitChoice := { starts := #[1, 0, 4], seeds := [2, 0] }
+/-- hold out 1 and move it, hold out 0 with a failed `WeightedIndex::new`, hold out 2 and move it -/
+def exChoices : List Choice := [⟨1, some 2, false⟩, ⟨0, none, false⟩, ⟨2, some 0, false⟩]
+/-- Zoops: a seed, then the inactive sequence 1 — recruited —, then discarded would be `true` -/
+def exChoicesZ : List Choice := [⟨2, some 3, false⟩, ⟨1, some 1, false⟩, ⟨1, some 0, false⟩, ⟨0, none, false⟩]
+
+/-- the cached counts of `exData` are what `SamplerData::new` computes (4 columns) -/
+example : (mkData 5 4 exData.seqs exData.wraps).toOption.map (·.counts) = some exData.counts := by
+  decide +kernel
+
+theorem exData_wf : exData.WF 5 := by
+  constructor
+  · decide +kernel
+  · decide +kernel
+  · decide +kernel
+  · decide +kernel
+
+example : Longer exData exOops.w := by unfold Longer; decide +kernel
+example : InitAdm exData exOops exIc := by decide +kernel
+example : InitAdm exData exZoops exIcZ := by decide +kernel
+
+/-- one Boolean that evaluates a whole run of the model -/
+def exCheck (P : Params) (ic : InitChoice) (cs : List Choice) (starts : List (List Nat))
+    (actives : List (List Nat)) : Bool :=
+  match init (K := 5) exData P ic with
+  | .error _ => false
+  | .ok s0 =>
+    admRunB exData P s0 cs && (run exData P s0 cs).1.length == cs.length &&
+    ((activeSequences s0).length ≥ 2) &&
+    ((run exData P s0 cs).1.map (fun x => x.1.starts.toList) == starts) &&
+    ((run exData P s0 cs).1.map (fun x => activeSequences x.1) == actives)
+
+theorem exCheck_sound {P : Params} {ic : InitChoice} {cs : List Choice} {starts actives : List (List Nat)}
+    (h : exCheck P ic cs starts actives = true) :
+    ∃ s0 : State 5, init exData P ic = .ok s0 ∧ AdmRun exData P s0 cs ∧
+      (run exData P s0 cs).1.length = cs.length ∧
+      (run exData P s0 cs).1.map (fun x => x.1.starts.toList) = starts ∧
+      (run exData P s0 cs).1.map (fun x => activeSequences x.1) = actives := by
+  unfold exCheck at h
+  cases hi : init (K := 5) exData P ic with
+  | error e => rw [hi] at h; cases h
+  | ok s0 =>
+    rw [hi] at h
+    simp only [Bool.and_eq_true, beq_iff_eq, decide_eq_true_eq] at h
+    obtain ⟨⟨⟨⟨h1, h2⟩, _⟩, h4⟩, h5⟩ := h
+    exact ⟨s0, rfl, admRun_of_admRunB _ _ h1, h2, h4, h5⟩
+
+/-- Oops: `inv_init`, `inv_run`, `trace_ok`, `oops_never_panics` apply to a run of three steps in
+    which two starts change (and one `WeightedIndex::new` fails) -/
+example : ∃ s0 : State 5, init exData exOops exIc = .ok s0 ∧ AdmRun exData exOops s0 exChoices ∧
+    (run exData exOops s0 exChoices).1.length = 3 ∧
+    (run exData exOops s0 exChoices).1.map (fun x => x.1.starts.toList) =
+      [[1, 2, 4], [1, 2, 4], [1, 2, 0]] ∧
+    (run exData exOops s0 exChoices).1.map (fun x => activeSequences x.1) =
+      [[0, 1, 2], [0, 1, 2], [0, 1, 2]] :=
+  exCheck_sound (by decide +kernel)
+
+/-- Zoops with two seeds: sequence 1 is recruited at the second step; `zoops_never_panics` applies -/
+example : ∃ s0 : State 5, init exData exZoops exIcZ = .ok s0 ∧ AdmRun exData exZoops s0 exChoicesZ ∧
+    (run exData exZoops s0 exChoicesZ).1.length = 4 ∧
+    (run exData exZoops s0 exChoicesZ).1.map (fun x => x.1.starts.toList) =
+      [[1, 0, 3], [1, 1, 3], [1, 0, 3], [1, 0, 3]] ∧
+    (run exData exZoops s0 exChoicesZ).1.map (fun x => activeSequences x.1) =
+      [[0, 2], [0, 1, 2], [0, 1, 2], [0, 1, 2]] :=
+  exCheck_sound (by decide +kernel)
+
+/-- the excluded point: a single Oops sequence — the step panics, exactly as `step_panics_iff` and
+    `nothingLeft_iff` say (nothing is left once the only sequence is held out) -/
+example : (match init (K := 5) ⟨#[#[0,1,2,3]], #[#[1,1,1,1,0]], #[3]⟩ exOops ⟨#[0], []⟩ with
+    | .ok s0 => (run ⟨#[#[0,1,2,3]], #[#[1,1,1,1,0]], #[3]⟩ exOops s0 [⟨0, none, false⟩]).2
+    | .error e => .panic e) = .panic "background-empty" := by decide +kernel
+
+end Example
 
 end C16
 end LMV
